@@ -269,6 +269,11 @@ ADDPACK_FLAGS = {'topack': (0, 0), 'topack_multi': (0, 0), 'topack_nofsync': (0,
 def program_lines(name, ev, run, keys):
     """inputs of the model programs (Programs.v) recovered from the implementation run: contents, orders, blobs are oracles"""
     kind = PROGRAM_SCENARIOS.get(name)
+    rspec = None
+    if name.startswith('rnd_'):
+        import scen
+        rspec = scen.rand_spec(name)
+        kind = {'add': 'add', 'pack': 'pack', 'topack': 'addpack', 'import': 'import', 'delete': 'delete', 'clean': 'clean', 'repack': 'repack'}[rspec['kind']]
     if not kind:
         return None
     post = run['post']
@@ -288,7 +293,10 @@ def program_lines(name, ev, run, keys):
         lines.append((f'X clean {vac} ' + ','.join(ks)).rstrip())
         return lines
     if kind in ('addpack', 'import'):
-        nh, twice = ADDPACK_FLAGS[name]
+        if rspec is not None:
+            nh, twice = (int(rspec['nh']), int(rspec['twice'])) if rspec['kind'] == 'topack' else ((0, 0) if rspec['same'] else (1, 1))
+        else:
+            nh, twice = ADDPACK_FLAGS[name]
         pre_packs = {k: bytes.fromhex(v) for k, v in run['pre']['packs'].items()}
         cur = {}
         segs = []
@@ -307,8 +315,7 @@ def program_lines(name, ev, run, keys):
                 pos = int(t[2])
                 tail = bytes(cur[t[1]][pos:])
                 cur[t[1]] = cur[t[1]][:pos]
-                if tail or pos < len(cur[t[1]]) + len(tail):
-                    seg['dups'].append((pos, tail))
+                seg['dups'].append((pos, tail))   # every truncation, in trace order; the last one of a no_holes call is the final truncate()
             elif t[0] == 'insert' and len(t) > 2:
                 seg['rows'] += t[2].split(';')
             elif t[0] == 'fsync':
@@ -322,17 +329,19 @@ def program_lines(name, ev, run, keys):
                 data = bytes.fromhex(post['packs'].get(pid, ''))
                 # the row's bytes may have been cut away again if the row was IGNOREd? no: rows are only collected for objects kept in the pack
                 items.append((int(off), 1, f'{k},{hx(data[int(off):int(off) + int(ln)])},{comp},{size}'))
-            for pos, tail in sg['dups']:
-                if not tail:
-                    continue   # the final truncate() at the end of the pack
-                comp = comp_flag if comp_flag is not None else ('1' if name in ('topack',) else '0')
+            dups = sg['dups'][:-1] if (nh and sg['dups']) else sg['dups']   # drop the final truncate() at the end of the call
+            for seq, (pos, tail) in enumerate(dups):
+                # (a truncation with nothing to cut is a zero-length duplicate written uncompressed: the known empty object)
+                comp = comp_flag if comp_flag is not None else ('1' if (name in ('topack',) or (rspec is not None and rspec.get('compress') is True)) else '0')
                 try:
                     content = zlib.decompress(tail) if comp == '1' else tail
                 except zlib.error:
                     content = tail
                 k = keys.id(store.H(HT, content))
-                items.append((pos, 0, f'{k},{hx(tail)},{comp},{len(content)}'))   # a duplicate written at pos precedes the new object that ends up there
-            items.sort(key=lambda x: (x[0], x[1]))
+                items.append((pos, 0, seq, f'{k},{hx(tail)},{comp},{len(content)}'))   # a duplicate written at pos precedes the new object that ends up there
+            items = [(x[0], x[1], x[2] if len(x) == 4 else 0, x[-1]) for x in items]
+            items.sort(key=lambda x: (x[0], x[1], x[2]))
+            items = [(x[0], x[1], x[3]) for x in items]
             sg['items'] = items
             if kind == 'addpack':
                 lines.append(f"X addpack {sg['id']} {nh} {twice} {1 if sg['fsync'] else 0} {';'.join(x[2] for x in items)}")
@@ -452,6 +461,30 @@ def check_scenario(name, power_loss_expected=True):
 MONO_SCENARIOS = ['add', 'add_flat', 'add_dup', 'add_big', 'pack', 'pack_clean', 'pack_small', 'pack_auto', 'pack_nofsync', 'pack_nofsync_clean',
                   'pack_novalidate', 'clean', 'pack_then_clean', 'loosen', 'topack', 'topack_multi', 'import_same', 'import_same_stream']
 NOREPACK_SCENARIOS = MONO_SCENARIOS + ['topack_nofsync', 'topack_nh', 'topack_nh_rt0', 'import_diff', 'import_diff_stream']
+
+
+class _Names(list):
+    """scenario name lists that also answer for generated scenarios (rnd_<kind>_<seed>) by their kind"""
+    def __init__(self, items, kinds):
+        super().__init__(items)
+        self.kinds = kinds
+
+    def __contains__(self, name):
+        if isinstance(name, str) and name.startswith('rnd_'):
+            import scen
+            sp = scen.rand_spec(name)
+            return self.kinds(sp)
+        return list.__contains__(self, name)
+
+
+# monotone steps: no deletion, no repack, no truncation (no_holes without read-twice truncates)
+MONO_SCENARIOS = _Names(MONO_SCENARIOS, lambda sp: sp['kind'] in ('add', 'pack', 'clean') or (sp['kind'] == 'topack' and not sp['nh']) or (sp['kind'] == 'import' and sp['same']))
+NOREPACK_SCENARIOS = _Names(NOREPACK_SCENARIOS, lambda sp: sp['kind'] in ('add', 'pack', 'clean', 'topack', 'import'))
+
+
+def random_names(rnd, per_kind):
+    import scen
+    return [f'rnd_{k}_{rnd.randrange(10 ** 6)}' for k in scen.RAND_KINDS for _ in range(per_kind)]
 
 
 def check_traces(ck, pid, baselines=None, names=None):
